@@ -49,13 +49,13 @@ def write_hists(ctx, res, path, limit=None):
     return n, samples
 
 
-def replay_file(ctx, path, shared, tag, reps=8):
+def replay_file(ctx, path, shared, tag, reps=8, timeout=1200):
     out = ctx.path("out_%s.ndjson" % tag)
     rc, text, wall = ctx.go_test(
         "cesium", "./internal/control", ["zz_verif_control_test.go"],
         "^TestVerifControlReplay$",
         env={"VERIF_IN": path, "VERIF_OUT": out, "VERIF_SHARED": "1" if shared else "0",
-             "VERIF_REPS": reps}, tag=tag)
+             "VERIF_REPS": reps}, tag=tag, timeout=timeout)
     rows = ctx.read_ndjson(out)
     if rc != 0 or not rows or not rows[0].get("summary"):
         raise vlib.Inconclusive("control replay harness failed rc=%s:\n%s" % (rc, text[-2000:]))
@@ -189,7 +189,7 @@ def regions_stage(ctx, thorough):
     g = ctx.tlc(AREA, "ControlRegionsGen", "crg.cfg", files={"crg.cfg": regions_cfg(False, depth=4 if not thorough else 5, maxt=3, maxcounter=50)},
                 tag="cr_gen", timeout=1500, workers=8)
     hp = ctx.path("gen_regions.ndjson")
-    n, smp = write_hists(ctx, g, hp, limit=120000 if not thorough else 600000)
+    n, smp = write_hists(ctx, g, hp, limit=120000 if not thorough else 300000)
     if n == 0:
         raise vlib.Inconclusive("no region histories generated")
     summ, bad = replay_file(ctx, hp, False, "rp_regions", reps=2)
@@ -280,11 +280,11 @@ def run(ctx):
             tag2 = "sim_%s" % ("sh" if shared else "ex")
             cfg = gen_cfg(shared, 7, subjects=4, maxauth=3)
             r2 = ctx.tlc(AREA, "ControlGen", "sim.cfg", files={"sim.cfg": cfg}, tag=tag2,
-                         simulate="num=20000", depth=8, workers=8, timeout=1200)
+                         simulate="num=4000", depth=8, workers=8, timeout=1200)
             hp2 = ctx.path(tag2 + ".ndjson")
             n2, _ = write_hists(ctx, r2, hp2)
             if n2:
-                summ2, bad2 = replay_file(ctx, hp2, shared, "rp_" + tag2, reps=16)
+                summ2, bad2 = replay_file(ctx, hp2, shared, "rp_" + tag2, reps=8, timeout=3000)
                 total += n2
                 all_bad += [(shared, hp2, b) for b in bad2]
     # verdicts: every mismatch is re-run once from scratch (reproduction) via a one-line file
